@@ -21,3 +21,17 @@ def component_tx():
     return {"name": "txconc", "gen": gen_tx, "corpus": [],
             "classify": lambda line, out: "ok" if out == "OK" else out.split()[0],
             "nontrivial": lambda line, out: out == "OK" and int(line.split()[2]) > int(line.split()[1])}
+
+
+def gen_rx(rng, tier):
+    """tiny buffers make both sides park all the time: that is where a lost wake-up under true concurrency shows"""
+    shapes = [(10, 10, 200000), (20, 7, 200000), (10, 10, 200000), (3000, 1000, 50000), (10, 10, 200000),
+              (100, 7, 100000), (65536, 1400, 30000), (10, 10, 200000)]
+    n = len(shapes) if tier == "quick" else 4 * len(shapes)
+    return ["rxconc %d %d %d %d" % (shapes[i % len(shapes)] + (rng.below(1 << 40) + 1,)) for i in range(n)]
+
+
+def component_rx():
+    return {"name": "rxconc", "gen": gen_rx, "corpus": [],
+            "classify": lambda line, out: "ok" if out == "OK" else out.split()[0],
+            "nontrivial": lambda line, out: out == "OK"}
